@@ -285,7 +285,7 @@ Proof.
   unfold attrs_2byte. intros H Ha.
   destruct (a_code a =? 2).
   - destruct (a_binary a); [|discriminate]. apply bind_ok in H as [segs [_ H]].
-    destruct (existsb seg_wide segs); inversion H; subst; repeat constructor.
+    destruct (existsb seg_wide segs && _); inversion H; subst; repeat constructor.
   - destruct (a_code a =? 7).
     + destruct (a_binary a); [|discriminate]. destruct (len l <? 8); [discriminate|].
       destruct (65535 <? rd32 (firstn 4 l)); inversion H; subst; repeat constructor.
@@ -555,7 +555,7 @@ Proof.
   destruct (a_code a =? 2) eqn:E2.
   - apply N.eqb_eq in E2. rewrite E2 in Ha.
     destruct (a_binary a); [|discriminate]. apply bind_ok in H as [segs [_ H]].
-    destruct (existsb seg_wide segs); inversion H; subst; repeat constructor; assumption.
+    destruct (existsb seg_wide segs && _); inversion H; subst; repeat constructor; assumption.
   - destruct (a_code a =? 7) eqn:E7.
     + apply N.eqb_eq in E7. rewrite E7 in Ha.
       destruct (a_binary a); [|discriminate]. destruct (len l <? 8); [discriminate|].
@@ -1281,24 +1281,30 @@ Theorem C04_as4_path_roundtrip :
       segs_of b = Ok segs /\
       (existsb seg_wide segs = false ->
          w = [mk_bin 2 (flat_map enc_seg2 segs)] /\ map seg_down segs = segs) /\
-      (existsb seg_wide segs = true ->
+      (existsb seg_wide segs = true -> filter not_confed segs = [] ->
+         w = [mk_bin 2 (flat_map enc_seg2 segs)]) /\
+      (existsb seg_wide segs = true -> filter not_confed segs <> [] ->
          w = [mk_bin 2 (flat_map enc_seg2 segs); mk_bin 17 (flat_map enc_seg4 (filter not_confed segs))] /\
          as4_reconcile (map seg_down segs) (filter not_confed segs) = filter not_confed segs /\
          (forallb not_confed segs = true -> as4_reconcile (map seg_down segs) (filter not_confed segs) = segs)).
 Proof.
   intros a b w Hc Hb H. unfold attrs_2byte in H. rewrite Hc, Hb in H. cbn [N.eqb Pos.eqb] in H.
   apply bind_ok in H as [segs [Hs H]]. exists segs. split; [exact Hs|].
+  change (filter (fun s : N * list N => negb (seg_confed s)) segs) with (filter not_confed segs) in H.
   assert (Hrec : as4_reconcile (map seg_down segs) (filter not_confed segs) = filter not_confed segs).
   { unfold as4_reconcile. rewrite hops_down, hops_strip, N.ltb_irrefl, N.sub_diag, take_hops_0. reflexivity. }
-  split.
-  - intros Hw. rewrite Hw in H. apply Ok_inj in H. split; [symmetry; exact H|].
+  split; [|split].
+  - intros Hw. rewrite Hw in H. cbn [andb] in H. apply Ok_inj in H. split; [symmetry; exact H|].
     clear - Hw. induction segs as [|s segs IH]; [reflexivity|].
     cbn [existsb] in Hw. apply orb_false_iff in Hw as [Hs Hr]. cbn [map]. rewrite IH by exact Hr. f_equal.
     destruct s as [t asns]. unfold seg_down, seg_wide in *. cbn [fst snd] in *. f_equal.
     induction asns as [|x asns IHa]; [reflexivity|]. cbn [existsb map] in *.
     apply orb_false_iff in Hs as [Hx Hr']. rewrite IHa by exact Hr'. unfold as2. rewrite Hx. reflexivity.
-  - intros Hw. rewrite Hw in H. apply Ok_inj in H. split; [symmetry; exact H|]. split; [exact Hrec|].
-    intros Hnc. rewrite Hrec. clear - Hnc. induction segs as [|s segs IH]; [reflexivity|].
+  - intros Hw He. rewrite Hw, He in H. cbn [andb] in H. apply Ok_inj in H. symmetry. exact H.
+  - intros Hw Hne. rewrite Hw in H. cbn [andb] in H.
+    destruct (filter not_confed segs) as [|s0 rest] eqn:Ef; [congruence|].
+    apply Ok_inj in H. split; [symmetry; exact H|]. split; [exact Hrec|].
+    intros Hnc. rewrite Hrec. rewrite <- Ef. clear - Hnc. induction segs as [|s segs IH]; [reflexivity|].
     cbn [forallb] in Hnc. apply andb_prop in Hnc as [Hs Hr]. cbn [filter]. rewrite Hs, IH by exact Hr. reflexivity.
 Qed.
 
